@@ -455,6 +455,9 @@ def compile(object, return_code=False):
             return Literal(literal, block=code.root_block)
         elif isinstance(x, int | float | np.integer | np.floating | bool):
             # ################## Numeric ##################
+            if isinstance(x, float | np.floating) and not np.isfinite(x):
+                # inf and nan have no literal
+                return Literal(f'float("{x}")', block=code.root_block)
             return Literal(str(x), block=code.root_block)
         elif x is None:
             # ################## None ##################
